@@ -1,0 +1,113 @@
+//! Verification hooks (cargo feature `verif-hooks`, off by default).
+//!
+//! Nothing in here changes what the database does: the hooks only tell an
+//! external test harness where a thread currently is (`at`), let it look at
+//! internal bookkeeping (`DbState`, `TxState`) and, optionally, keep replaced
+//! memory maps around as inaccessible address ranges (`quarantine`).
+use std::sync::{
+    atomic::{AtomicBool, Ordering},
+    Arc, Mutex, RwLock,
+};
+
+use memmap2::Mmap;
+
+/// Places inside the library at which the harness is told "thread is here".
+#[derive(Debug, Clone, Copy, PartialEq, Eq, Hash)]
+pub enum Point {
+    TxBeginBeforeLock,
+    TxBeginAfterLock,
+    TxBeginAfterMeta,
+    TxBeginAfterRegister,
+    TxBeginEnd,
+    CommitStart,
+    CommitBeforeGrow,
+    CommitBeforeData,
+    CommitBeforeMeta,
+    CommitBeforeSync,
+    CommitBeforePublish,
+    CommitAfterPublish,
+    ResizeBeforeMapLock,
+    ResizeBeforeDataLock,
+    ResizeAfterRemap,
+    TxDropStart,
+    TxDropEnd,
+}
+
+type Handler = Arc<dyn Fn(Point, bool) + Send + Sync>;
+
+static HANDLER: RwLock<Option<Handler>> = RwLock::new(None);
+
+/// Installs (or removes) the process-wide handler called at every [`Point`].
+/// The second argument of the handler says whether the transaction is writable.
+pub fn set_handler(h: Option<Handler>) {
+    *HANDLER.write().unwrap() = h;
+}
+
+#[inline]
+pub(crate) fn at(p: Point, writable: bool) {
+    let h = HANDLER.read().unwrap().clone();
+    if let Some(h) = h {
+        h(p, writable);
+    }
+}
+
+/// Shared bookkeeping of a [`DB`](crate::DB) handle.
+#[derive(Debug, Clone, PartialEq, Eq)]
+pub struct DbState {
+    pub free: Vec<u64>,
+    pub pending: Vec<(u64, Vec<u64>)>,
+    pub readers: Vec<u64>,
+    pub map_len: usize,
+}
+
+/// Bookkeeping private to one [`Tx`](crate::Tx).
+#[derive(Debug, Clone, PartialEq, Eq)]
+pub struct TxState {
+    pub writable: bool,
+    pub tx_id: u64,
+    pub meta_page: u32,
+    pub root_page: u64,
+    pub next_int: u64,
+    pub num_pages: u64,
+    pub freelist_page: u64,
+    pub free: Vec<u64>,
+    pub pending: Vec<(u64, Vec<u64>)>,
+    pub map_len: usize,
+}
+
+static QUARANTINE: AtomicBool = AtomicBool::new(false);
+static PARKED: Mutex<Vec<Arc<Mmap>>> = Mutex::new(Vec::new());
+
+/// When on, memory maps replaced by a file growth are not unmapped once the
+/// last transaction using them is gone, but turned into inaccessible address
+/// ranges (see [`sweep_dead_maps`]), so that a stale pointer into them faults.
+pub fn set_quarantine(on: bool) {
+    QUARANTINE.store(on, Ordering::SeqCst);
+}
+
+pub(crate) fn park_map(old: Arc<Mmap>) {
+    if QUARANTINE.load(Ordering::SeqCst) {
+        PARKED.lock().unwrap().push(old);
+    }
+}
+
+/// Makes every parked map that no transaction references any more
+/// inaccessible (`PROT_NONE`) and leaks it. Returns how many were sealed.
+pub fn sweep_dead_maps() -> usize {
+    let mut parked = PARKED.lock().unwrap();
+    let mut sealed = 0;
+    let mut keep = Vec::new();
+    for m in parked.drain(..) {
+        if Arc::strong_count(&m) == 1 {
+            unsafe {
+                libc::mprotect(m.as_ptr() as *mut libc::c_void, m.len(), libc::PROT_NONE);
+            }
+            std::mem::forget(m);
+            sealed += 1;
+        } else {
+            keep.push(m);
+        }
+    }
+    *parked = keep;
+    sealed
+}
